@@ -1,7 +1,8 @@
 (* C14 -- proofs for Model/C14_Misc.v:
-   (a) fit_bspline covers [t0, t1]  (fit_impl.hpp:320, bspline_impl.hpp:36-45);
+   (a) fit_bspline covers [t0, t1] and allocates every control point its data
+       times index  (fit_impl.hpp:321-322, :333, bspline_impl.hpp:36-45);
    (b) the fit_spline fix-up makes every segment interpolating
-       (fit_impl.hpp:260-269). *)
+       (fit_impl.hpp:261-270). *)
 
 From Coq Require Import QArith Qround List Lia Lqa ZArith.
 From SV Require Import Model.C14_Misc.
@@ -17,19 +18,54 @@ Lemma span_ratio : forall t0 t1 dt : Q,
   0 < dt -> (t1 - t0 + dt) / dt == (t1 - t0) / dt + 1.
 Proof. intros t0 t1 dt Hdt. field. lra. Qed.
 
-Lemma span_ratio_ge1 : forall t0 t1 dt : Q,
-  0 < dt -> t0 <= t1 -> 1 <= (t1 - t0 + dt) / dt.
+Lemma ratio_nonneg : forall t0 t dt : Q, 0 < dt -> t0 <= t -> 0 <= (t - t0) / dt.
+Proof. intros t0 t dt Hdt Hle. apply Qle_shift_div_l; [exact Hdt | lra]. Qed.
+
+Lemma ratio_cancel : forall t0 t dt : Q, 0 < dt -> (t - t0) / dt * dt == t - t0.
+Proof. intros t0 t dt Hdt. field. lra. Qed.
+
+Lemma ratio_mono : forall t0 t t1 dt : Q, 0 < dt -> t <= t1 -> (t - t0) / dt <= (t1 - t0) / dt.
 Proof.
-  intros t0 t1 dt Hdt Hle.
-  apply Qle_shift_div_l; [exact Hdt | lra].
+  intros t0 t t1 dt Hdt Hle. apply Qle_shift_div_l; [exact Hdt |].
+  rewrite ratio_cancel by exact Hdt. lra.
 Qed.
+
+Lemma Qfloor_plus_1 : forall q : Q, Qfloor (q + 1) = (Qfloor q + 1)%Z.
+Proof.
+  intro q. change 1 with (inject_Z 1).
+  pose proof (Qfloor_le q) as Ha. pose proof (Qlt_floor q) as Hb.
+  set (f := Qfloor q) in *.
+  assert (H2 : (f + 1 <= Qfloor (q + inject_Z 1))%Z).
+  { assert (Hx : inject_Z (f + 1) <= q + inject_Z 1) by (rewrite inject_Z_plus; lra).
+    apply Qfloor_resp_le in Hx. rewrite Qfloor_Z in Hx. exact Hx. }
+  assert (H3 : (Qfloor (q + inject_Z 1) < f + 2)%Z).
+  { assert (Hx : q + inject_Z 1 < inject_Z (f + 2)).
+    { rewrite inject_Z_plus. rewrite inject_Z_plus in Hb.
+      change (inject_Z 2) with 2. change (inject_Z 1) with 1 in *. lra. }
+    pose proof (Qfloor_le (q + inject_Z 1)) as Hy.
+    assert (Hz : inject_Z (Qfloor (q + inject_Z 1)) < inject_Z (f + 2)) by lra.
+    rewrite <- Zlt_Qlt in Hz. exact Hz. }
+  lia.
+Qed.
+
+(* istar is a valid (non-negative) index for every data time at or after t0 (fit_impl.hpp:333) *)
+Lemma bs_istar_nonneg : forall t0 dt t, 0 < dt -> t0 <= t -> (0 <= bs_istar t0 dt t)%Z.
+Proof.
+  intros t0 dt t Hdt Hle. unfold bs_istar.
+  pose proof (Qfloor_resp_le _ _ (ratio_nonneg t0 t dt Hdt Hle)) as H.
+  change 0 with (inject_Z 0) in H. rewrite Qfloor_Z in H. exact H.
+Qed.
+
+(* fit_impl.hpp:321-322: the count is, by construction, what the LAST data point needs: istar(t1) + K + 1 *)
+Theorem num_pts_is_last_index : forall K t0 t1 dt,
+  num_pts K t0 t1 dt = (bs_istar t0 dt t1 + K + 1)%Z.
+Proof. intros. unfold num_pts, bs_istar. lia. Qed.
 
 Theorem num_pts_ge : forall K t0 t1 dt,
   0 < dt -> t0 <= t1 -> (K + 1 <= num_pts K t0 t1 dt)%Z.
 Proof.
-  intros K t0 t1 dt Hdt Hle. unfold num_pts.
-  pose proof (Qfloor_resp_le _ _ (span_ratio_ge1 t0 t1 dt Hdt Hle)) as Hf.
-  change 1 with (inject_Z 1) in Hf. rewrite Qfloor_Z in Hf. lia.
+  intros K t0 t1 dt Hdt Hle. rewrite num_pts_is_last_index.
+  pose proof (bs_istar_nonneg t0 dt t1 Hdt Hle). lia.
 Qed.
 
 (* strict version: t1 is strictly inside the span *)
@@ -39,19 +75,12 @@ Theorem fit_bspline_span_strict : forall K t0 t1 dt,
 Proof.
   intros K t0 t1 dt Hdt Hle. unfold bs_tmin, bs_tmax, num_pts.
   split; [apply Qle_refl |].
-  set (x := (t1 - t0 + dt) / dt).
-  replace (K + Qfloor x - K)%Z with (Qfloor x) by lia.
+  set (x := (t1 - t0) / dt).
+  replace (K + 1 + Qfloor x - K)%Z with (Qfloor x + 1)%Z by lia.
   pose proof (Qlt_floor x) as Hfl.
-  rewrite inject_Z_plus in Hfl. change (inject_Z 1) with 1 in Hfl.
-  assert (Hx : x == (t1 - t0) / dt + 1) by (apply span_ratio; exact Hdt).
-  assert (Hlt1 : (t1 - t0) / dt + 1 < inject_Z (Qfloor x) + 1).
-  { apply Qle_lt_trans with x; [| exact Hfl].
-    apply Qle_lteq. right. symmetry. exact Hx. }
-  assert (Hlt : (t1 - t0) / dt < inject_Z (Qfloor x)) by lra.
-  assert (Hmul : (t1 - t0) / dt * dt < inject_Z (Qfloor x) * dt).
+  assert (Hmul : x * dt < inject_Z (Qfloor x + 1) * dt).
   { apply Qmult_lt_compat_r; assumption. }
-  assert (Hcancel : (t1 - t0) / dt * dt == t1 - t0) by (field; lra).
-  rewrite Hcancel in Hmul. lra.
+  unfold x in Hmul at 1. rewrite ratio_cancel in Hmul by exact Hdt. lra.
 Qed.
 
 Theorem fit_bspline_span : forall K t0 t1 dt,
@@ -63,7 +92,27 @@ Proof.
   split; [exact H1 | apply Qlt_le_weak; exact H2].
 Qed.
 
-(* K = 3, data on [1/2, 27/10], dt = 1/2: floor(2.7/0.5) = 5 intervals *)
+(* every data time t in [t0, t1] uses control points istar(t) .. istar(t) + K (fit_impl.hpp:333-337: drop(istar) |
+   take(K + 1)); all of them exist *)
+Theorem num_pts_covers_index : forall K t0 t1 dt t,
+  0 < dt -> t0 <= t -> t <= t1 ->
+  (0 <= bs_istar t0 dt t)%Z /\ (bs_istar t0 dt t + K + 1 <= num_pts K t0 t1 dt)%Z.
+Proof.
+  intros K t0 t1 dt t Hdt H0 H1. split; [apply bs_istar_nonneg; assumption |].
+  rewrite num_pts_is_last_index. unfold bs_istar.
+  pose proof (Qfloor_resp_le _ _ (ratio_mono t0 t t1 dt Hdt H1)). lia.
+Qed.
+
+(* in exact arithmetic commit 435fdfb does not change the count: the repair only matters for the binary64
+   evaluation, where (t1 - t0 + dt) / dt and (t - t0) / dt are rounded independently (the harness check
+   bspline_ctrl_index evaluates the library's own NumPts against the library's own istar expression) *)
+Theorem num_pts_eq_old : forall K t0 t1 dt, 0 < dt -> num_pts K t0 t1 dt = num_pts_old K t0 t1 dt.
+Proof.
+  intros K t0 t1 dt Hdt. unfold num_pts, num_pts_old.
+  rewrite (Qfloor_comp _ _ (span_ratio t0 t1 dt Hdt)), Qfloor_plus_1. lia.
+Qed.
+
+(* K = 3, data on [1/2, 27/10], dt = 1/2: floor(2.2/0.5) = 4, so 3 + 1 + 4 control points *)
 Example fit_bspline_span_ex :
   num_pts 3 (1#2) (27#10) (1#2) = 8%Z
   /\ bs_tmax 3 (1#2) (1#2) 8 == 3
@@ -73,10 +122,14 @@ Proof.
   apply fit_bspline_span_strict; [reflexivity | discriminate].
 Qed.
 
-(* boundary: t1 - t0 an exact multiple of dt gives one extra interval *)
+(* boundary: t1 - t0 an exact multiple of dt: istar(t1) = 4 is the index of a fresh interval, whose K + 1 = 4
+   control points 4..7 are allocated *)
 Example fit_bspline_span_ex_exact :
-  num_pts 3 0 2 (1#2) = 8%Z /\ bs_tmax 3 0 (1#2) 8 == 5#2.
-Proof. split; vm_compute; reflexivity. Qed.
+  num_pts 3 0 2 (1#2) = 8%Z /\ bs_tmax 3 0 (1#2) 8 == 5#2 /\ (bs_istar 0 (1#2) 2 + 3 + 1 = 8)%Z.
+Proof. repeat split; vm_compute; reflexivity. Qed.
+
+Example num_pts_covers_index_ex : (bs_istar 0 (1 # 2) 10 + 3 + 1 <= num_pts 3 0 10 (1 # 2))%Z.
+Proof. vm_compute. discriminate. Qed.
 
 End Span.
 
